@@ -42,12 +42,29 @@ def import_flowpaths():
     here = Path(flowpaths.__file__).resolve()
     if REPO not in here.parents:
         raise Infra(f"flowpaths imported from {here}, not from {REPO}")
-    try:
-        flowpaths.utils.configure_logging(log_to_console=False, log_to_file=False, level=logging.CRITICAL)
-    except Exception:
-        pass
-    logging.disable(logging.CRITICAL)
+    set_package_logging(flowpaths, os.environ.get("VERIF_LOGGING", "debug") == "debug")
     return flowpaths
+
+
+def set_package_logging(flowpaths, debug):
+    """the package logger at DEBUG level with every record going to a NullHandler (default of all checks: code behind
+    `isEnabledFor(DEBUG)` / inside debug messages runs, nothing is printed), or silenced altogether. What a model
+    returns must not depend on it; C20 alternates between the two, VERIF_LOGGING=off silences everything."""
+    import logging
+    lg = getattr(getattr(flowpaths, "utils", None), "logger", None)
+    if lg is None:
+        logging.disable(logging.CRITICAL)
+        return
+    if debug:
+        logging.disable(logging.NOTSET)
+        for h in lg.handlers[:]:
+            lg.removeHandler(h)
+        lg.addHandler(logging.NullHandler())
+        lg.propagate = False
+        lg.setLevel(logging.DEBUG)
+    else:
+        lg.setLevel(logging.CRITICAL)
+        logging.disable(logging.CRITICAL)
 
 
 # ----------------------------------------------------------------------------- Lean side
